@@ -175,3 +175,8 @@ def frac_den(x):
 
 def frac_num(x):
     return x.numerator
+
+
+def cons_name(v):
+    """class name of a node built by an external constructor (Python `ast` nodes)"""
+    return type(v).__name__
